@@ -459,6 +459,18 @@ func run(c *Ctx) error {
 			return err
 		}
 	}
+	// ---- gmapped: the mapped server-reflexive gatherer alone (srflx rewrite rules, no URLs)
+	nMapped := 40
+	if !quick {
+		nMapped = 1500
+	}
+	sk := detectSkipUnspec()
+	c.Count("mapped-variant:skip_unspecified=" + B(sk))
+	for i := 0; i < nMapped; i++ {
+		if err := runCase(c, genMapped(c, p, sk)); err != nil {
+			return err
+		}
+	}
 	// ---- stale: a Restart placed exactly between addCandidate's ctx.Err() check and loop.Run's select
 	nStale := 3
 	if !quick {
@@ -491,6 +503,8 @@ func runCase(c *Ctx, t []string) error {
 		runScan(c, t)
 	case "gather":
 		runGather(c, t)
+	case "gmapped":
+		runMapped(c, t)
 	case "cycle":
 		runCycle(c, t)
 	case "stale":
@@ -578,6 +592,7 @@ type gcase struct {
 	rep4, rep6, relayed  []byte
 	muxport              int
 	rows                 []ifRow
+	rules                []ice.AddressRewriteRule // only in "gmapped" cases
 }
 
 func (g gcase) toks() []string {
@@ -998,6 +1013,9 @@ func newAgent(g gcase) (*ice.Agent, *agentEnv, error) {
 	if len(g.urls) > 0 {
 		opts = append(opts, ice.WithUrls(urlsOf(g.urls)))
 	}
+	if len(g.rules) > 0 {
+		opts = append(opts, ice.WithAddressRewriteRules(g.rules...))
+	}
 	a, err := ice.NewAgentWithOptions(opts...)
 
 	return a, env, err
@@ -1414,4 +1432,242 @@ func runCycle(c *Ctx, t []string) {
 	}()
 	c.Count("cycle")
 	c.Emit("cycle", t, obs, nontrivial)
+}
+
+// ---------------------------------------------------------------- gmapped
+
+// gmapped SK NT PMIN PMAX LO IFF IPF RULES {; iface}  =>  RET STATE NILS ; P cand* ; L cand* ; S sock* ; R r4 r6
+// RULES: comma separated "mode|local|ext+ext" (mode 0 default, 1 replace, 2 append; local "-" = catch-all);
+// r4 / r6: what resolveSrflxAddresses answers for the wildcard address of the family: "!" not ok, else the addresses.
+type mrule struct {
+	mode  int
+	local string
+	ext   []string
+}
+
+func rulesTok(rs []mrule) string {
+	if len(rs) == 0 {
+		return "-"
+	}
+	var out []string
+	for _, r := range rs {
+		e := strings.Join(r.ext, "+")
+		if e == "" {
+			e = "-"
+		}
+		out = append(out, strconv.Itoa(r.mode)+"|"+r.local+"|"+e)
+	}
+
+	return strings.Join(out, ",")
+}
+
+func parseRules(t string) []mrule {
+	if t == "-" {
+		return nil
+	}
+	var out []mrule
+	for _, x := range strings.Split(t, ",") {
+		f := strings.Split(x, "|")
+		m, _ := strconv.Atoi(f[0])
+		r := mrule{mode: m, local: f[1]}
+		if f[2] != "-" {
+			r.ext = strings.Split(f[2], "+")
+		}
+		out = append(out, r)
+	}
+
+	return out
+}
+
+func iceRules(rs []mrule) []ice.AddressRewriteRule {
+	var out []ice.AddressRewriteRule
+	for _, r := range rs {
+		x := ice.AddressRewriteRule{External: r.ext, AsCandidateType: ice.CandidateTypeServerReflexive, Mode: ice.AddressRewriteMode(r.mode)}
+		if r.local != "-" {
+			x.Local = r.local
+		}
+		out = append(out, x)
+	}
+
+	return out
+}
+
+func genMapped(c *Ctx, p pool, sk bool) []string {
+	r := c.Rng
+	g := gcase{rows: p.table()}
+	g.nt = subset(c, []int{1, 2, 3, 4})
+	if r.Intn(6) == 0 {
+		g.nt = nil
+	}
+	switch r.Intn(6) {
+	case 0, 1:
+	case 2:
+		g.pmin = 20000 + r.Intn(1000)
+		g.pmax = g.pmin + 3 + r.Intn(20)
+	case 3:
+		g.pmin = 30000 + r.Intn(30000)
+	case 4:
+		g.pmax = 1100 + r.Intn(3000)
+	default:
+		g.pmin = 40000 + r.Intn(100)
+		g.pmax = g.pmin + 6
+	}
+	g.lo = r.Intn(3) == 0
+	g.iff, g.ipf = "-", "-"
+	if r.Intn(3) == 0 {
+		g.iff, g.ipf = p.filters(g.rows)
+	}
+	v4 := []string{"203.0.113.9", "203.0.113.10", "198.51.100.77"}
+	v6 := []string{"2001:db8:77::9", "2001:db8:77::a"}
+	var rs []mrule
+	pick := func(pool []string, n int) []string {
+		var out []string
+		for _, i := range r.Perm(len(pool)) {
+			if len(out) < n {
+				out = append(out, pool[i])
+			}
+		}
+
+		return out
+	}
+	switch r.Intn(8) {
+	case 0: // a rule pinned to a local address: never matches the wildcard listen address
+		rs = append(rs, mrule{local: "10.99.99.99", ext: pick(v4, 1)})
+	case 1: // both: the pinned one and a catch-all
+		rs = append(rs, mrule{local: "10.99.99.99", ext: pick(v4, 1)}, mrule{local: "-", ext: pick(v4, 1+r.Intn(3))})
+	case 2: // IPv6 catch-all only
+		rs = append(rs, mrule{local: "-", ext: pick(v6, 1+r.Intn(2))})
+	case 3: // one catch-all per family
+		rs = append(rs, mrule{local: "-", ext: pick(v4, 1+r.Intn(3))}, mrule{local: "-", ext: pick(v6, 1+r.Intn(2))})
+	case 4: // append mode
+		rs = append(rs, mrule{mode: 2, local: "-", ext: pick(v4, 1+r.Intn(3))})
+	case 5: // a link-local (location tracked) external among others
+		rs = append(rs, mrule{local: "-", ext: []string{"fe80::77", v6[0]}})
+	default:
+		rs = append(rs, mrule{local: "-", ext: pick(v4, 1+r.Intn(3))})
+	}
+	t := []string{"gmapped", B(sk), ints(g.nt), strconv.Itoa(g.pmin), strconv.Itoa(g.pmax), B(g.lo), g.iff, g.ipf, rulesTok(rs)}
+	for _, row := range g.rows {
+		t = append(t, row.toks()...)
+	}
+
+	return t
+}
+
+func mappedCase(t []string) (gcase, []mrule) {
+	gs := groups(t)
+	h := gs[0]
+	if len(h) != 9 {
+		panic(fmt.Sprintf("bad gmapped case header (%d tokens)", len(h)))
+	}
+	at := func(s string) int { v, _ := strconv.Atoi(s); return v }
+	rs := parseRules(h[8])
+	g := gcase{variant: "000", api: "o", ct: []int{2}, nt: unints(h[2]), pmin: at(h[3]), pmax: at(h[4]), lo: h[5] == "1",
+		iff: h[6], ipf: h[7], rows: parseIfs(gs[1:]), rules: iceRules(rs)}
+
+	return g, rs
+}
+
+func resolvedTok(a *ice.Agent, wild net.IP) string {
+	ips, ok := ice.VerifResolveSrflxAddresses(a, wild, "")
+	if !ok {
+		return "!"
+	}
+	if len(ips) == 0 {
+		return "-"
+	}
+	var out []string
+	for _, ip := range ips {
+		out = append(out, hex.EncodeToString(canon(ip)))
+	}
+
+	return strings.Join(out, ",")
+}
+
+func runMapped(c *Ctx, t []string) {
+	g, rs := mappedCase(t)
+	c.Count("gmapped")
+	if g.iff != "-" || g.ipf != "-" {
+		c.Count("gmapped:filters")
+	}
+	if g.pmin != 0 || g.pmax != 0 {
+		c.Count("gmapped:port_range")
+	}
+	c.Count(fmt.Sprintf("gmapped:rules=%d", len(rs)))
+	obs, nontrivial := func() (obs []string, nontrivial bool) {
+		defer func() {
+			if r := recover(); r != nil {
+				obs, nontrivial = []string{"PANIC", hx([]byte(fmt.Sprint(r)))}, false
+			}
+		}()
+		a, env, err := newAgent(g)
+		if err != nil {
+			return []string{"NEWERR", hx([]byte(err.Error()))}, false
+		}
+		r4 := resolvedTok(a, net.IPv4zero)
+		r6 := resolvedTok(a, net.IPv6unspecified)
+		pub := &published{nilCh: make(chan struct{}, 4)}
+		if err := a.OnCandidate(pub.handler); err != nil {
+			return []string{"ONCANDERR"}, false
+		}
+		ret := a.GatherCandidates()
+		timedOut := false
+		if ret == nil {
+			select {
+			case <-pub.nilCh:
+			case <-time.After(15 * time.Second):
+				timedOut = true
+			}
+		}
+		st, _ := a.GetGatheringState()
+		loc, _ := a.GetLocalCandidates()
+		pub.mu.Lock()
+		pl := append([]ice.Candidate{}, pub.cands...)
+		nils := pub.nils
+		pub.mu.Unlock()
+		socks := ownSocks(env.net)
+		_ = a.Close()
+		obs = []string{errCode(ret), strconv.Itoa(int(st)), strconv.Itoa(nils)}
+		if timedOut {
+			obs[0] = "TIMEOUT"
+		}
+		obs = append(obs, ";", "P")
+		obs = append(obs, candToks(pl)...)
+		obs = append(obs, ";", "L")
+		obs = append(obs, candToks(loc)...)
+		obs = append(obs, ";", "S")
+		obs = append(obs, socks...)
+		obs = append(obs, ";", "R", r4, r6)
+
+		return obs, len(pl) > 0
+	}()
+	tag := "gmapped"
+	if g.iff != "-" || g.ipf != "-" {
+		tag += ",filters"
+	}
+	c.Emit(tag, t, obs, nontrivial)
+}
+
+// does the mapped gatherer skip an unspecified address (the repaired code) or publish it?
+func detectSkipUnspec() bool {
+	rows := []ifRow{{"eth0", true, false, [][]byte{ip4(10, 9, 9, 9)}}}
+	g := gcase{variant: "000", api: "o", ct: []int{2}, nt: []int{1}, iff: "-", ipf: "-", rows: rows,
+		rules: iceRules([]mrule{{local: "10.99.99.99", ext: []string{"203.0.113.9"}}})}
+	a, _, err := newAgent(g)
+	if err != nil {
+		return true
+	}
+	pub := &published{nilCh: make(chan struct{}, 4)}
+	_ = a.OnCandidate(pub.handler)
+	if a.GatherCandidates() == nil {
+		select {
+		case <-pub.nilCh:
+		case <-time.After(10 * time.Second):
+		}
+	}
+	pub.mu.Lock()
+	defer pub.mu.Unlock()
+	defer a.Close() //nolint:errcheck
+
+	return len(pub.cands) == 0
 }
